@@ -1,4 +1,4 @@
-import Deb822Verif.Model.Text
+import Deb822Verif.Model.Outcome
 /-
   Model of `debian_copyright::glob::glob_to_regex` (debian-copyright/src/glob.rs:1-37) and of the
   fragment of the `regex` crate it can emit: `^ (escaped literal | . | .*)* $` with the crate's
@@ -6,28 +6,6 @@ import Deb822Verif.Model.Text
   the haystack).
 -/
 namespace Deb822Verif
-
-/-- panics are values (DESIGN §2.1.1 item 3) -/
-inductive Outcome (α : Type) where
-  | ok (a : α)
-  | panic (site : String)
-  deriving DecidableEq, Repr
-
-namespace Outcome
-def map {α β} (f : α → β) : Outcome α → Outcome β
-  | .ok a => .ok (f a)
-  | .panic s => .panic s
-def bind {α β} (o : Outcome α) (f : α → Outcome β) : Outcome β :=
-  match o with
-  | .ok a => f a
-  | .panic s => .panic s
-def isOk {α} : Outcome α → Bool
-  | .ok _ => true
-  | .panic _ => false
-instance : Monad Outcome where
-  pure := .ok
-  bind := Outcome.bind
-end Outcome
 
 namespace Glob
 
